@@ -53,6 +53,7 @@ REPS = {   # two representatives per shape
 def fcall(fn, *args): return {"e": "fcall", "fn": fn, "as": list(args)}
 def func(name, params, body): return {"name": name, "params": list(params), "body": body}
 def calln(fn, *args): return {"e": "calln", "fn": fn, "as": list(args)}
+def callh(fn, a, *rest, f=""): return {"e": "callh", "fn": fn, "as": [a] + list(rest), "f": f}
 def pipe(x, fn, *args, bare=False): return {"e": "pipe", "x": x, "fn": fn, "as": list(args), "bare": bare}
 def match_(x, cases): return {"e": "match", "x": x, "cases": [{"p": p, "hasg": g is not None, "g": g if g is not None else lit(vnull()), "b": b} for p, g, b in cases]}
 def plit(v): return {"k": "lit", "v": v, "n": "", "ps": [], "rest": "", "fs": []}
@@ -785,6 +786,10 @@ def function_table():
     for n in (0, 1, 5, 8):
         P([fact], [ret(fcall("fact", I(n)))], ["recursion", "fact", str(n)])
         P([fib], [ret(fcall("fib", I(n)))], ["recursion", "fib", str(n)])
+    P([func("f", ["a"], [ret(fcall("f", add(var("a"), I(1))))])], [ret(fcall("f", I(0)))], ["recursion", "without-end"])
+    P([func("f", ["a"], [ret(add(I(1), fcall("f", var("a"))))])], [ret(fcall("f", I(0)))], ["recursion", "without-end", "pending-work"])
+    P([func("ping", ["a"], [ret(fcall("pong", var("a")))]), func("pong", ["a"], [ret(fcall("ping", var("a")))])], [ret(fcall("ping", I(0)))], ["recursion", "mutual-without-end"])
+    P([func("f", ["a"], [decl("r", I(0)), for_(None, "v", arr([var("a")]), [set_("r", fcall("f", var("v")))]), ret(var("r"))])], [ret(fcall("f", I(0)))], ["recursion", "without-end", "through-a-loop"])
     # scoping: a function sees neither the caller's variables nor leaves any behind
     P([func("f", [], [ret(var("x"))])], [decl("x", I(5)), ret(fcall("f"))], ["scope", "caller-variable-not-visible"])
     P([func("f", ["a"], [decl("x", add(var("a"), I(1))), ret(var("x"))])], [decl("x", I(5)), decl("r", fcall("f", I(1))), ret(arr([var("r"), var("x")]))], ["scope", "local-declaration-does-not-touch-caller"])
@@ -893,6 +898,92 @@ def builtin_table():
     Q([ret(pipe(I(1), "addf", bare=True))], ["missing-argument-is-null", "body-fails"])
     Q([ret(pipe(arr([I(1), I(2)]), "addf", arr([I(3)])))], ["arrays"])
     Q([ret(pipe(var("q"), "dbl", bare=True))], ["from-input"], [("q", vint(21))])
+    # array builtins (not in the language specification's tables; defined here as the interpreter's dispatch table has them,
+    # with values as values: no call changes an array another variable holds)
+    A = lambda body, tags, vars_=(), funcs=(): out.append(prog("", body, vars_, ["arrays"] + tags, list(funcs)))
+    L = lambda *xs: arr([I(x) if isinstance(x, int) else (S(x) if isinstance(x, str) else x) for x in xs])
+    dbl = func("dbl", ["a"], [ret(bin_("*", var("a"), I(2)))])
+    big = func("big", ["a"], [ret(bin_(">", var("a"), I(1)))])
+    addf = func("addf", ["a", "b"], [ret(bin_("+", var("a"), var("b")))])
+    asc = func("asc", ["a", "b"], [ret(bin_("-", var("a"), var("b")))])
+    desc = func("desc", ["a", "b"], [ret(bin_("-", var("b"), var("a")))])
+    lessb = func("lessb", ["a", "b"], [ret(bin_("<", var("a"), var("b")))])
+    bylen = func("bylen", ["a", "b"], [ret(bin_("-", call("length", var("a")), call("length", var("b"))))])
+    viadbl = func("viadbl", ["a"], [ret(bin_("+", fcall("dbl", var("a")), I(1)))])
+    notbool = func("notbool", ["a"], [ret(var("a"))])
+    fails = func("fails", ["a"], [ret(bin_("/", I(1), bin_("-", var("a"), I(2))))])
+    isstr = func("isstr", ["a"], [ret(bin_("==", call("length", var("a")), I(1)))])
+    F = (dbl, big, addf, asc, desc, lessb, bylen, viadbl, notbool, fails, isstr)
+    arrays = {"three": L(3, 1, 2), "empty": L(), "one": L(7), "dups": L(2, 1, 2, 1), "five": L(5, 4, 3, 2, 1), "sorted": L(1, 2, 3)}
+    for name, xs in arrays.items():
+        A([decl("xs", xs), ret(arr([callh("map", var("xs"), f="dbl"), callh("filter", var("xs"), f="big"), callh("reduce", var("xs"), I(0), f="addf"), var("xs")]))], ["map-filter-reduce", name], funcs=F)
+        A([decl("xs", xs), ret(arr([callh("find", var("xs"), f="big"), callh("some", var("xs"), f="big"), callh("every", var("xs"), f="big")]))], ["find-some-every", name], funcs=F)
+        A([decl("xs", xs), ret(arr([callh("sort", var("xs")), callh("sort", var("xs"), f="asc"), callh("sort", var("xs"), f="desc"), callh("sort", var("xs"), f="lessb"), callh("reverse", var("xs")), var("xs")]))], ["sort-reverse", name], funcs=F)
+        n = len(xs["es"])
+        for a, b in ((0, n), (1, 2), (-1, 1), (0, n + 3), (2, 1), (n, n), (n + 1, n + 2), (0, -1), (-5, -2)):
+            A([decl("xs", xs), ret(callh("slice", var("xs"), I(a), I(b)))], ["slice", name, "%d:%d" % (a, b)])
+        A([decl("xs", xs), decl("ys", callh("append", var("xs"), I(9))), ret(arr([var("xs"), var("ys")]))], ["append", name])
+    # append: each result is a value of its own (growing one array twice from the same start)
+    A([decl("a", callh("append", callh("append", L(1), I(2)), I(3))), decl("b", callh("append", var("a"), I(4))), decl("c", callh("append", var("a"), I(5))), ret(arr([var("a"), var("b"), var("c")]))], ["append", "two-results-from-one-array"])
+    A([decl("a", L()), decl("i", I(0)), while_(bin_("<", var("i"), I(5)), [set_("a", callh("append", var("a"), var("i"))), set_("i", bin_("+", var("i"), I(1)))]), decl("b", callh("append", var("a"), I(100))), decl("c", callh("append", var("a"), I(200))), ret(arr([var("b"), var("c")]))],
+      ["append", "grown-in-a-loop-then-branched"])
+    A([decl("a", L(1, 2, 3)), decl("b", callh("slice", var("a"), I(0), I(2))), decl("c", callh("append", var("b"), I(9))), ret(arr([var("a"), var("b"), var("c")]))], ["append", "to-a-slice-leaves-the-source"])
+    A([decl("a", L(1, 2, 3)), decl("b", callh("reverse", var("a"))), decl("c", callh("sort", var("a"))), ret(arr([var("a"), var("b"), var("c")]))], ["results-are-new-arrays"])
+    A([ret(callh("flat", arr([L(1), L(2, L(3)), I(4), L(), S("s")])))], ["flat", "one-level"])
+    A([ret(callh("flat", L()))], ["flat", "empty"])
+    A([ret(callh("flat", L(1, 2)))], ["flat", "nothing-nested"])
+    A([ret(callh("sort", L("pear", "apple", "fig", "Apple", "apple pie", "")))], ["sort", "strings"])
+    A([ret(callh("sort", arr([lit(vfloat(2.5)), lit(vfloat(-1.0)), lit(vfloat(2.25))])))], ["sort", "floats"])
+    A([ret(callh("sort", L(1, "a")))], ["sort", "mixed-kinds"])
+    A([ret(callh("sort", arr([I(1), lit(vfloat(2.0))])))], ["sort", "int-and-float"])
+    A([ret(callh("sort", arr([lit(vnull()), lit(vnull())])))], ["sort", "nulls"])
+    A([ret(callh("sort", arr([lit(vnull())])))], ["sort", "single-null"])
+    A([ret(callh("sort", L("bb", "a", "ccc", "dd", "e"), f="bylen"))], ["sort", "stable-by-length"], funcs=F)
+    A([ret(callh("sort", L(3, 1, 2), f="notbool"))], ["sort", "comparator-of-one-parameter"], funcs=F)
+    A([ret(callh("sort", L("b", "a"), f="isstr"))], ["sort", "comparator-answers-true-always"], funcs=F)
+    A([ret(callh("map", L(1, 2), f="viadbl"))], ["callback-calls-another-function"], funcs=F)
+    A([ret(fcall("rec", I(1)))], ["callback-recursion-without-end"], funcs=[func("rec", ["a"], [ret(callh("map", arr([var("a")]), f="rec"))])])
+    A([ret(fcall("down", I(6)))], ["callback-recursion"], funcs=[func("down", ["a"], [if_(bin_("<=", var("a"), I(0)), [ret(arr([]))]), ret(callh("flat", callh("map", arr([bin_("-", var("a"), I(1)), bin_("-", var("a"), I(2))]), f="down")))])])
+    A([ret(callh("map", L(1, 2, 3), f="fails"))], ["callback-fails", "map"], funcs=F)
+    A([ret(callh("filter", L(1, 3), f="fails"))], ["callback-does-not-answer-a-boolean", "filter"], funcs=F)
+    A([ret(arr([callh("filter", L(1, 2), f="notbool"), callh("some", L(1, 2), f="notbool"), callh("every", L(1, 2), f="notbool"), callh("find", L(1, 2), f="notbool")]))], ["callback-does-not-answer-a-boolean"], funcs=F)
+    A([ret(callh("map", L(1, 2), f="nosuch"))], ["undefined-callback"], funcs=F)
+    A([ret(callh("map", L(), f="nosuch"))], ["undefined-callback", "empty-array"], funcs=F)
+    A([ret(callh("reduce", L("a", "b"), S(">"), f="addf"))], ["reduce", "strings"], funcs=F)
+    A([ret(callh("reduce", L(L(1), L(2)), L(), f="addf"))], ["reduce", "arrays"], funcs=F)
+    A([ret(callh("reduce", L(1, 2), bin_("/", I(1), I(0)), f="addf"))], ["reduce", "initial-value-fails"], funcs=F)
+    A([decl("t", I(0)), for_(None, "v", callh("map", L(1, 2, 3), f="dbl"), [set_("t", bin_("+", var("t"), var("v")))]), ret(var("t"))], ["map", "iterated"], funcs=F)
+    A([ret(call("length", callh("filter", L(1, 2, 3, 4), f="big")))], ["filter", "length"], funcs=F)
+    A([ret(callh("map", callh("filter", L(1, 2, 3), f="big"), f="dbl"))], ["nested"], funcs=F)
+    A([ret(callh("map", var("q"), f="dbl"))], ["map", "not-an-array"], [("q", vint(3))], funcs=F)
+    for fn, extra in (("map", []), ("filter", []), ("find", []), ("some", []), ("every", []), ("reduce", [I(0)]), ("sort", []), ("reverse", []), ("flat", []), ("slice", [I(0), I(1)]), ("append", [I(1)])):
+        for bad in (I(1), S("abc"), lit(vnull()), obj([("a", I(1))]), lit(vbool(True))):
+            kw = {"f": "dbl"} if fn in ("map", "filter", "find", "some", "every") else ({"f": "addf"} if fn == "reduce" else {})
+            A([ret(callh(fn, bad, *extra, **kw))], ["bad-argument", fn, bad["v"]["k"] if bad["e"] == "lit" else "obj"], funcs=F)
+    for bad in (S("x"), lit(vnull()), lit(vfloat(1.5)), L(1)):
+        A([ret(callh("slice", L(1, 2, 3), bad, I(2)))], ["bad-argument", "slice", "start"])
+        A([ret(callh("slice", L(1, 2, 3), I(0), bad))], ["bad-argument", "slice", "end"])
+    # set / remove: the object they answer
+    A([ret(callh("set", obj([("a", I(1))]), S("b"), I(2)))], ["set", "new-key"])
+    A([ret(callh("set", obj([("a", I(1)), ("b", I(2))]), S("a"), S("x")))], ["set", "existing-key"])
+    A([ret(callh("remove", obj([("a", I(1)), ("b", I(2))]), S("a")))], ["remove", "existing-key"])
+    A([ret(callh("remove", obj([("a", I(1))]), S("zz")))], ["remove", "absent-key"])
+    A([ret(calln("keys", callh("set", callh("set", obj([]), S("b"), I(1)), S("a"), I(2))))], ["set", "then-keys"])
+    for bad in (I(1), lit(vnull()), L(1)):
+        A([ret(callh("set", bad, S("a"), I(1)))], ["bad-argument", "set", "object"])
+        A([ret(callh("set", obj([("a", I(1))]), bad, I(1)))], ["bad-argument", "set", "key"])
+        A([ret(callh("remove", bad, S("a")))], ["bad-argument", "remove", "object"])
+        A([ret(callh("remove", obj([("a", I(1))]), bad))], ["bad-argument", "remove", "key"])
+    # the names every route is given (query, input, headers): a route may declare a variable of its own with such a name
+    for nm in ("query", "input", "headers"):
+        R = lambda body, tags, vars_=(): out.append(prog("", body, vars_, ["request-names", nm] + tags))
+        R([decl(nm, I(5)), ret(var(nm))], ["declared"])
+        R([decl(nm, I(5)), set_(nm, bin_("+", var(nm), I(1))), ret(var(nm))], ["declared-then-assigned"])
+        R([decl(nm, arr([I(1)])), if_(lit(vbool(True)), [set_(nm, bin_("+", var(nm), arr([I(2)])))]), ret(var(nm))], ["assigned-in-branch"])
+        R([if_(lit(vbool(True)), [decl(nm, I(1)), set_(nm, I(2))]), ret(I(3))], ["declared-in-branch"])
+        R([decl("t", I(0)), for_(None, nm, arr([I(1), I(2)]), [set_("t", bin_("+", var("t"), var(nm)))]), ret(var("t"))], ["loop-variable"])
+        R([decl(nm, I(5)), decl(nm, I(6)), ret(var(nm))], ["declared-twice"])
+        R([decl(nm, var("q")), ret(var(nm))], ["from-input"], [("q", vint(8))])
     return out
 
 
